@@ -40,7 +40,7 @@ def _setup(case):
     from pgv import sim, ops, refspline
     sim.setup()
     from pygyro.initialisation.constants import Constants
-    c = Constants()
+    c = ops.generic_constants(Constants())
     nq, nr = case['nq'], case['nr']
     tp = 2 * math.pi
     if case['basis'] == 'cu':
